@@ -1,3 +1,7 @@
+import math
+from decimal import Decimal
+from typing import Any
+
 from flamapy.core.exceptions import FlamaException
 from flamapy.core.transformations import ModelToText
 
@@ -113,12 +117,24 @@ class AFMWriter(ModelToText):
                     " to " + str(_range.max_value) + "]"
 
         if len(domain.get_element_list()) > 0:
-            result += "[" + ",".join(str(element) for element in domain.get_element_list()) + "]"
+            result += "[" + ",".join(cls.value_text(element)
+                                     for element in domain.get_element_list()) + "]"
 
-        result += "," + str(attribute.get_default_value())
-        result += "," + str(attribute.get_null_value())
+        result += "," + cls.value_text(attribute.get_default_value())
+        result += "," + cls.value_text(attribute.get_null_value())
 
         return result
+
+    @staticmethod
+    def value_text(value: Any) -> str:
+        """A real value is written without exponent (the grammar's DOUBLE has none): 1e+16 as
+        10000000000000000.0."""
+        if isinstance(value, float):
+            if not math.isfinite(value):
+                raise FlamaException(f"AFM has no spelling for the value {value}.")
+            text = format(Decimal(repr(value)), 'f')
+            return text if '.' in text else text + '.0'
+        return str(value)
 
     def serialize_constraints(self) -> str:
         result = "%Constraints\n"
